@@ -1,8 +1,87 @@
 """C03 - diagram independent of order, identifiers, repeats and hash seed (translation validation
 for the schedule-dependent part; the ingestion algebra is proved in Properties/C03.v)."""
 from . import common, learnlib as L, pumllib as P
+from .common import coq_list
 
 LEVEL = "translation_validation"
+
+
+def ingestion_leg(out, n):
+    """Direct tie for the ingestion theorems (ingest_perm / ingest_dup / ingest_iso): random job graphs INCLUDING same-typed
+    siblings (successor / predecessor multisets with counts > 1) through the real
+    update_and_create_events_from_clustered_pvevents under several presentations; the canonical evidence must be the same
+    for every presentation (oracle) and equal to V.Pv.EventModel.ingest (correspondence)."""
+    import random
+    common.setup_impl_path()
+    import tel2puml.events  # noqa: F401
+    from tel2puml.pv_to_puml.data_ingestion import update_and_create_events_from_clustered_pvevents
+    from .c04 import canon_events, coq_msets, START
+    rnd = random.Random(out.seed * 50021 + 3)
+    rows, bad = [], []
+    for _ in range(n):
+        ntypes = rnd.choice([2, 3, 4])
+        jobs = []
+        for _j in range(rnd.choice([2, 3, 4, 6])):
+            m = rnd.choice([2, 3, 4, 5, 7])
+            job = []
+            for i in range(m):
+                preds = sorted(rnd.sample(range(i), min(i, rnd.choice([0, 1, 1, 2])))) if i else []
+                job.append((f"E{rnd.randint(1, ntypes)}", preds))
+            jobs.append(job)
+        if rnd.random() < 0.5:      # two jobs of identical shape differing only in how many same-typed siblings follow an event
+            k = rnd.randint(2, 3)
+            jobs.insert(rnd.randrange(len(jobs) + 1), [("E1", [])] + [("E2", [0])] + [("E3", [1])])
+            jobs.insert(rnd.randrange(len(jobs) + 1), [("E1", [])] + [("E2", [0])] * k + [("E3", list(range(1, k + 1)))])
+        models = []
+        for pres in range(3):
+            r2 = random.Random(rnd.random())
+            order = list(range(len(jobs)))
+            if pres:
+                r2.shuffle(order)
+                if pres == 2:
+                    order.append(order[0])
+            pv = [P.pv_events(jobs[j], pos, "wf", rnd=r2 if pres else None) for pos, j in enumerate(order)]
+            models.append(canon_events(update_and_create_events_from_clustered_pvevents(pv, add_dummy_start=True)))
+        if models[1] != models[0] or models[2] != models[0]:
+            bad.append(dict(kind="ingested evidence depends on the presentation (order / repetition of the jobs)", jobs=jobs,
+                            baseline=models[0], other=models[1] if models[1] != models[0] else models[2]))
+        it = P.Interner()
+        it(START)
+        for j in jobs:
+            for t, _ in j:
+                it(t)
+        cm = models[0]
+        impl = coq_list([
+            f"({it(t)}%positive, {coq_msets([sorted((it(k), v) for k, v in s0) for s0 in o], lambda x: x)}, "
+            f"{coq_msets([sorted((it(k), v) for k, v in s0) for s0 in i], lambda x: x)})"
+            for t, (o, i) in sorted(cm.items(), key=lambda kv: it(kv[0]))])
+        rows.append(f"({coq_list([P.coq_job(j, it) for j in jobs])}, {impl})")
+    files = []
+    for s0 in range(0, len(rows), 40):
+        body = ";\n ".join(rows[s0:s0 + 40])
+        files.append((f"I{s0}", f"""From Coq Require Import List PArith Bool Arith. Import ListNotations.
+From V Require Import Puml.Ast Puml.Exec Pv.EventModel.
+Open Scope positive_scope.
+Definition cases : list (list jobgraph * list (evt * list mset * list mset)) := [
+ {body}].
+Definition mset_eqb (a b : mset) := match mset_cmp a b with Eq => true | _ => false end.
+Fixpoint leqb {{A B}} (f : A -> B -> bool) (a : list A) (b : list B) := match a, b with [] , [] => true | x :: a', y :: b' => f x y && leqb f a' b' | _, _ => false end.
+Definition sub (a b : list mset) := forallb (fun x => existsb (mset_eqb x) b) a.
+Definition seteq a b := sub a b && sub b a.
+Definition agree (m : emodel) (i : list (evt * list mset * list mset)) :=
+  leqb (fun x y => Pos.eqb (fst x) (fst (fst y)) && seteq (outs (snd x)) (snd (fst y)) && seteq (ins (snd x)) (snd y)) m i.
+Definition idx {{A}} (f : A -> bool) (l : list A) : list nat := map fst (filter (fun p => negb (f (snd p))) (combine (seq 0 (length l)) l)).
+Eval vm_compute in (1%nat, idx (fun c => agree (ingest (fst c)) (snd c)) cases).
+"""))
+    res = common.coq_eval_many(files)
+    dis, fails = [], []
+    for (name, _), (okc, o) in zip(files, res):
+        l = common.parse_nat_list(o, "1")
+        if not okc or l is None:
+            fails.append((name, o[-500:]))
+        else:
+            dis += [int(name[1:]) + i for i in l]
+    return dict(cases=len(rows), bad=bad, disagreements=dis, coq_failures=fails)
 
 
 def run(out, explore=0):
@@ -65,6 +144,14 @@ def run(out, explore=0):
                                presentation=L.VARIANTS[it["variant"]], env=L.VARIANT_ENV[it["variant"]], certificate=certs.get(i)))
     if okp and fails and not out.violations:
         out.violation({"kind": "certificate-evaluation-failed", "coq_failures": fails[:2]}, no_failing_input=True)
+    leg = ingestion_leg(out, 120 if quick else 2000) if okp else None
+    if leg:
+        for b in leg["bad"][:2]:
+            out.violation(b)
+        if (leg["disagreements"] or leg["coq_failures"]) and not out.violations:
+            out.violation({"kind": "correspondence-broken",
+                           "relation": "update_and_create_events_from_clustered_pvevents == V.Pv.EventModel.ingest (job graphs with same-typed siblings)",
+                           "disagreements": leg["disagreements"][:5], "coq_failures": leg["coq_failures"][:2]}, no_failing_input=True)
     sample = next((it for it in items if it.get("text") and it["variant"] == 5), items[0])
     out.coverage.update({
         "programs": sum(1 for it in items if it.get("tokens")), "disagreements_checked": sum(kinds.values()),
@@ -72,6 +159,8 @@ def run(out, explore=0):
                          env=dict(zip(("PYTHONHASHSEED", "uuid_seed"), L.VARIANT_ENV[sample["variant"]])), output=sample.get("text"))],
         "exhaustive": False, "definitions": len(recs), "learner_runs": len(items), "variants": {v: list(L.VARIANTS[v]) + list(L.VARIANT_ENV[v]) for v in variants},
         "failure_kinds": kinds, "failing_keys": failing, "pairs_compared": len(other),
+        "ingestion_leg": None if not leg else dict(cases=leg["cases"], presentation_dependent=len(leg["bad"]), model_disagreements=len(leg["disagreements"])),
+        "traces_validated_against_impl": leg["cases"] if leg else 0,
         "evaluations": len(items), "distinct_nontrivial": len({it["rec"]["id"] for it in items if it["rec"]["events"] >= 4}),
         "rule": "pool slice + the 63 corpus definitions + 40 (thorough: 250) definitions of the frozen pool R (same event type in two branches of a fork) + 60 (thorough: 143) of the frozen pool B (a branch beginning with a nested fork, plus a shared event type) x presentation variants (job permutation, event permutation inside jobs, id renaming + time shift, a job "
                 "supplied twice, PYTHONHASHSEED in {0,1,12345,777,4242} in separate processes, distinct uuid streams); each variant "
